@@ -27,7 +27,8 @@ MANIFEST_ENTRY = {
         "back (C09_publish_ast_mono from C08); applying the patch served at T2 for the T1 publish time to the "
         "T1 document gives the T2 publishTime, PatchLocation and SegmentTimelines, with originalPublishTime = "
         "T1 publishTime and the MPD id (C09_patch_equiv). Tied to the code by comparing the model's timelines "
-        "with rendered manifests and by applying real patches to real documents."),
+        "with rendered manifests and by applying real patches to real documents."
+        " generateSegmentTimeline and get_segment_index are in addition translated from the source text into Lean on every run and proved equal to the model; C09_shared_entries_generated / C09_window_start_generated state the agreement about the translated definitions."),
     "level_note": (
         "Hypotheses: positive advertised durations; constant clamped depth (stream older than its buffer depth) "
         "for the window-end theorem – the young-stream case is a decide-d witness and excluded from the "
